@@ -233,6 +233,16 @@ def run(ctx, out, tier):
     check_rebase(ctx, out, rule="C10.rebase")
     check_col0_guard(ctx, out)
     shared.sh_units(ctx, out)
+    # a rule only runs if the lazy detection loop creates its validator: every pending detector is asked
+    # about every block (shared with C14)
+    from rules.C14 import check_once as _detect_once, detect_fn as _detect_fn
+    _dv = _detect_fn(ctx)
+    if _dv is not None:
+        _detect_once(ctx, out, _dv, rule="C10.detect")
+    else:
+        out.inst("C10.detect", 0, 4)
+    from rules.C03 import check_sametext
+    check_sametext(ctx, out, rule="C10.sametext")
     return meta()
 
 
